@@ -18,6 +18,7 @@ fn main() -> ExitCode {
     let opts = util::Opts::parse(&args[2..]);
     let r = match args[1].as_str() {
         "tokens" => comp::tokens(&opts),
+        "peers" => comp::peers(&opts),
         other => {
             eprintln!("unknown sub-command {other}");
             return ExitCode::from(2);
